@@ -333,6 +333,34 @@ func genPath(t *rapid.T) PathCase {
 	if c.Path != "std-readloop" && c.Path != "std-transfer" {
 		c.TLS = rapid.Bool().Draw(t, "tls")
 	}
+	if rapid.IntRange(0, 2).Draw(t, "bulk") == 0 {
+		// valid bulk traffic: messages up to a few hundred KiB, fragmented, with interleaved pings - what the
+		// path-specific read loops (TLS records, read buffers, transferred connections) have to reassemble
+		n := rapid.IntRange(1, 5).Draw(t, "nbulk")
+		for i := 0; i < n; i++ {
+			size := rapid.SampledFrom([]int{0, 1, 125, 126, 4096, 16384, 16385, 65536, 200000}).Draw(t, "bulksize")
+			frag := rapid.SampledFrom([]int{0, 1000, 16384, 70000}).Draw(t, "bulkfrag")
+			payload := vlib.FillTagged(i&3, int64(i)*1000003, size)
+			op := vlib.OpBin
+			for first := true; first || len(payload) > 0; first = false {
+				k := len(payload)
+				if frag > 0 && k > frag {
+					k = frag
+				}
+				f := vlib.WSFrame{Fin: k == len(payload), Op: vlib.OpCont, Payload: payload[:k]}
+				if first {
+					f.Op = op
+				}
+				c.Seq.Frames = append(c.Seq.Frames, f)
+				payload = payload[k:]
+				if !f.Fin && rapid.IntRange(0, 5).Draw(t, "bulkping") == 0 {
+					c.Seq.Frames = append(c.Seq.Frames, vlib.WSFrame{Fin: true, Op: vlib.OpPing, Payload: []byte(fmt.Sprintf("p%d", i))})
+				}
+			}
+		}
+		c.Split = rapid.SampledFrom([]int{1, 3, 17}).Draw(t, "split")
+		return c
+	}
 	c.Seq = Gen(t)
 	c.Seq.ReceiverClient, c.Seq.Compression, c.Seq.Cuts, c.Seq.ByteAtATime = false, false, nil, false
 	c.Split = rapid.SampledFrom([]int{1, 1, 2, 5}).Draw(t, "split")
